@@ -91,7 +91,10 @@ type RefClient struct {
 	EverTentative map[string]bool
 	// DropPending marks rids the client dropped while one of its requests was
 	// still unanswered (the gateway may count that request as a subscription).
-	DropGroup      map[string][]string
+	DropGroup map[string][]string
+	// LostInStray maps a rid to the rid of the stray event whose (ignored)
+	// frame carried its data.
+	LostInStray    map[string]string
 	Unsubs         []UnsubCheck
 	Debug          bool
 	Redundant      int // resources re-sent although already held
@@ -116,7 +119,7 @@ func NewRefClient(conn, ver int) *RefClient {
 		Cache: map[string]*RCRes{}, Direct: map[string]int{}, Extra: map[string]int{}, EverTentative: map[string]bool{},
 		pool: map[string]*RCRes{}, sent: map[uint64]*SentReq{}, Responses: map[uint64]int{},
 		RespFrame: map[uint64]*Frame{},
-		Delivered: map[string][]DelivEv{}, HandT: map[string]int64{}, DropT: map[string]int64{}, Held: map[string][]HeldInterval{}, DropGroup: map[string][]string{},
+		Delivered: map[string][]DelivEv{}, HandT: map[string]int64{}, DropT: map[string]int64{}, Held: map[string][]HeldInterval{}, DropGroup: map[string][]string{}, LostInStray: map[string]string{},
 	}
 }
 
@@ -197,6 +200,7 @@ func (rc *RefClient) ingest(rs *resourceSet, t int64) (rids []string) {
 			return
 		}
 		res.FromT = t
+		delete(rc.LostInStray, rid)
 		rc.Cache[rid] = res
 		rc.HandT[rid] = t
 		rc.openInterval(rid, t, res)
@@ -585,6 +589,19 @@ func (rc *RefClient) processEvent(f *Frame) {
 			}
 		}
 		rc.viol("C02", f.T, rid, sig, "event %s for a resource the client does not hold: %s", f.Event, f.Raw)
+		// A client ignores an event for a resource it does not hold - together
+		// with the resources that event carries. What goes wrong for those
+		// later is a consequence of this stray event.
+		var rs resourceSet
+		if json.Unmarshal(f.Data, &rs) == nil {
+			for _, m := range []map[string]json.RawMessage{rs.Models, rs.Collections, rs.Errors} {
+				for r := range m {
+					if _, held := rc.Cache[r]; !held {
+						rc.LostInStray[r] = rid
+					}
+				}
+			}
+		}
 		if ev == "unsubscribe" {
 			rc.Direct[rid] = 0
 			rc.Extra[rid] = 0
